@@ -36,7 +36,30 @@ def observe(sim, fns):
     return out
 
 
-def run_pair(make, fns, max_steps, rnd):
+_TABLES = []
+
+
+def global_tables():
+    """dump of every class-level and module-level list / dict / set of the package: tables shared by all simulations of
+    the process.  An inspection call that edits one in place changes later results everywhere, and would escape a
+    comparison of two runs made in the same process (both see the edited table)."""
+    import sys
+    import inspect
+    if not _TABLES:
+        for name, mod in list(sys.modules.items()):
+            if not name.startswith("architecture_simulator") or mod is None:
+                continue
+            for k, v in list(vars(mod).items()):
+                if isinstance(v, (dict, list, set)) and not k.startswith("__"):
+                    _TABLES.append(("%s.%s" % (name, k), v))
+                elif inspect.isclass(v) and getattr(v, "__module__", None) == name:
+                    for a, x in list(vars(v).items()):
+                        if isinstance(x, (dict, list, set)) and not a.startswith("__"):
+                            _TABLES.append(("%s.%s.%s" % (name, k, a), x))
+    return {k: c20.dump(v) for k, v in _TABLES}
+
+
+def run_pair(make, fns, max_steps, rnd, step="step"):
     """-> (disagreement or None, number of steps)"""
     from architecture_simulator.simulation.runtime_errors import InstructionExecutionException
     A = make()
@@ -44,8 +67,12 @@ def run_pair(make, fns, max_steps, rnd):
     n = 0
     fault = None
     while n < max_steps:
+        g0 = global_tables()
         obs = observe(A, fns)
         again = observe(A, fns)
+        g1 = global_tables()
+        if g0 != g1:
+            return "inspection calls after %d steps edited a table shared by all simulations: %s" % (n, c20.diff(g0, g1)), n
         if obs != again:
             d = c20.diff(obs, again)
             return "calling the inspection functions twice in a row after %d steps gives different answers at %s" % (n, d), n
@@ -53,7 +80,7 @@ def run_pair(make, fns, max_steps, rnd):
         if A.is_done():
             break
         try:
-            A.step()
+            getattr(A, step)()
         except InstructionExecutionException as e:
             fault = repr(e)
             break
@@ -64,7 +91,7 @@ def run_pair(make, fns, max_steps, rnd):
         fb = None
         for _ in range(t):
             try:
-                B.step()
+                getattr(B, step)()
             except InstructionExecutionException as e:
                 fb = repr(e)
                 break
@@ -76,7 +103,7 @@ def run_pair(make, fns, max_steps, rnd):
             return "after %d steps: inspection result %s differs between a run inspected after every step and a run never inspected before" % (t, d), n
         if t == len(at) - 1 and fault is not None:
             try:
-                B.step()
+                getattr(B, step)()
                 return "the inspected run faults (%s) where the uninspected one does not" % fault, n
             except InstructionExecutionException as e:
                 if repr(e) != fault:
@@ -114,10 +141,12 @@ def run(tier, seed):
             t = ToySimulation()
             t.load_program(text)
             return t
-        bad, n = run_pair(mk, TOY, c06.STEP_BOUND, rnd)
+        # (half of the TOY runs advance by half cycles, so that the inspections also see the machine in mid-instruction)
+        half = it % 2 == 0
+        bad, n = run_pair(mk, TOY, 2 * c06.STEP_BOUND if half else c06.STEP_BOUND, rnd, "single_step" if half else "step")
         evals += 1
         if n >= 3:
-            shapes.add(("toy", hit, min(n, 12)))
+            shapes.add(("toy", hit, half, min(n, 12)))
         if bad and len(viol) < 5:
             viol.append({"key": "C16:toy:" + bad[:70], "what": bad, "text": text})
     return {"evaluations": evals, "distinct_nontrivial": len(shapes), "violations": viol, "samples": [{"text": "LDA 4\nSTO 2\nDEC\nBRZ 0\nINC\n"}],
@@ -137,7 +166,7 @@ def replay(j):
             return t
         bad = None
         for s in range(20):
-            bad, _ = run_pair(mk, TOY, c06.STEP_BOUND, random.Random(s))
+            bad, _ = run_pair(mk, TOY, 2 * c06.STEP_BOUND, random.Random(s), "single_step" if s % 2 == 0 else "step")
             if bad:
                 break
         print("now:", bad or "inspected and uninspected runs agree")
